@@ -75,6 +75,7 @@ class Program:
             f["n"] = norm(f["path"])
             self.fn_n[f["n"]].append(f)
         self.adts = {a["path"]: a for a in facts["adts"]}
+        self.adts_u = {a.get("upath", a["path"]): a for a in facts["adts"]}
         self.all_adts = dict(self.adts)
         for a in facts["ext_adts"]:
             self.all_adts.setdefault(a["path"], a)
